@@ -1148,9 +1148,13 @@ func c06BadStorage(d *db, op simrt.Op) {
 	case 4:
 		b = c06Garbage(r, len(b))
 	default: // an op record announcing far more data than follows
-		rec := make([]byte, 13)
+		rec := make([]byte, simrt.Pick(r, 13, 17, 40))
 		rec[0] = byte(r.Intn(6))
-		binary.LittleEndian.PutUint64(rec[1:], uint64(1)<<uint(20+r.Intn(40)))
+		n := uint64(1) << uint(20+r.Intn(40))
+		if r.Bool(0.4) {
+			n = ^uint64(0) - uint64(r.Intn(40)) // close to 2^64: length arithmetic wraps
+		}
+		binary.LittleEndian.PutUint64(rec[1:], n)
 		b = append(b, rec...)
 	}
 	what := fmt.Sprintf("badstorage(v%d %s %d -> %d bytes)", I[0], rel, len(good), len(b))
